@@ -136,6 +136,9 @@ def ref_resolve_plain(s):
         return TAG_FLOAT
     if s == '':
         return TAG_NULL
+    if s in ('!', '&', '*'):
+        # vestigial entry of PyYAML's table (these cannot be plain scalars)
+        return T + 'yaml'
     if _RX_INT.match(s):
         return TAG_INT
     if _RX_MERGE.match(s):
